@@ -63,6 +63,14 @@ func skipsOnlyFrameCtx(r *Run, p *Program, rule, construct string, ctx *Ctx, f *
 			if !edgeDominatesNot(f, b, k, work) {
 				continue
 			}
+			if skipMustContinue && (allowed(c) || predicateAllowed(ctx, c, allowed)) && looped && !isLoopBound(c) && errNonNilEdge(c) == nil {
+				// an allowed skip goes on to the next entry: it does not end the loop
+				if succ := b.Succs[k]; succ != work.Block() && !sameCycle(succ, work.Block()) && !edgeOnlyFails(f, b, k) {
+					bad = true
+					r.bad(rule, construct, p.Pos(c.If.Cond.Pos()), "an entry that may be skipped ends the whole loop instead ("+c.String(p)+"): the entries after it are never handled")
+				}
+				continue
+			}
 			if allowed(c) || isLoopBound(c) || errNonNilEdge(c) != nil || predicateAllowed(ctx, c, allowed) {
 				continue
 			}
@@ -99,6 +107,16 @@ func findWorkDeep(p *Program, root *ssa.Function, isWork func(in ssa.Instruction
 		return out[i].Ctx.String() < out[j].Ctx.String()
 	})
 	return out
+}
+
+// skipMustContinue: set by callers whose allowed conditions mean "skip this entry" (not "the iteration is over"): an
+// allowed skip must then stay inside the loop.
+var skipMustContinue bool
+
+func checkSkipsDeepContinue(r *Run, p *Program, rule, construct string, nd Node, allowed func(c *Cond) bool, okMsg, badMsg string) {
+	skipMustContinue = true
+	defer func() { skipMustContinue = false }()
+	checkSkipsDeep(r, p, rule, construct, nd, allowed, okMsg, badMsg)
 }
 
 // checkSkipsDeep is checkSkipsOnly for work that may sit in a helper or in a callback below the loop: the skip
@@ -418,7 +436,7 @@ func ruleOpenOrder(r *Run, p *Program, rule string) {
 		})
 		if r.anchor(rule, "Rename in backupNonsegmentFiles", len(rns) > 0) {
 			for _, nd := range rns {
-				checkSkipsDeep(r, p, rule, "pogreb.backupNonsegmentFiles:skips", nd, func(c *Cond) bool { return strConstEq(c, ".psg", "lock") },
+				checkSkipsDeepContinue(r, p, rule, "pogreb.backupNonsegmentFiles:skips", nd, func(c *Cond) bool { return strConstEq(c, ".psg", "lock") },
 					"recovery moves aside every file except *.psg and the lock file", "recovery leaves a file in place that is neither a segment nor the lock file: a stale/half-built index or metadata file survives into the rebuilt database")
 				// the destination is name + ".bac"
 				c := nd.In.(*ssa.Call)
